@@ -45,7 +45,45 @@ BUCKETS = [
     (r"(is not a member of|has not been declared|does not name a type)", "undeclared-name"),
     (r"invalid use of ‘this’ in non-member function", "free-function-parameter-named-self"),
 ]
+# sharp gate (passes on the pinned tree): IMPORTED resources whose constructor / static functions take, as FIRST
+# parameter, a record / enum / variant declared later in the interface, methods with later types in 1st/2nd
+# position, free functions with later types, in interfaces and at world level
+TYPE_ORDER = """package test:order;
+interface db {
+  resource conn {
+    constructor(cfg: config);
+    open: static func(mode: open-mode) -> conn;
+    pick: static func(c: choice, n: u32) -> u32;
+    run: func(q: query, lvl: level) -> u32;
+    tune: func(n: u32, o: opts) -> u32;
+  }
+  resource other {
+    constructor(first: early-only-here);
+    make: static func(v: shape-v) -> u8;
+  }
+  free-a: func(x: late-rec) -> late-enum;
+  free-b: func(n: u8, y: late-var) -> u8;
+  record config { name: string, retries: u8 }
+  enum open-mode { ro, rw }
+  variant choice { a(u8), b(string), c }
+  record query { text: string }
+  enum level { low, high }
+  record opts { x: u8 }
+  record early-only-here { z: u64 }
+  variant shape-v { circle(f32), square(f32) }
+  record late-rec { a: u8 }
+  enum late-enum { p, q }
+  variant late-var { m(u8), n }
+}
+world order {
+  import db;
+  import wf: func(c: wcfg) -> wkind;
+  record wcfg { a: u8 }
+  enum wkind { k1, k2 }
+}
+"""
 DIRECTED = [
+    ("type-order", "order", TYPE_ORDER, None),
     ("span-in-option", "w", "package a:b;\nworld w { import f: func(a: option<list<s32>>, b: tuple<u8, option<map<u64, u16>>>); }\n", None),
     ("resource-uses-later-type", "w", "package a:b;\ninterface i { resource res { constructor(x: later); m: func() -> later; } record later { a: u8 } }\nworld w { export i; }\n", None),
     ("libc-name", "w", "package uint8-t:b;\ninterface i { f: func(); }\nworld w { import i; export i; }\n", None),
@@ -105,6 +143,10 @@ def run_job(job, workroot, gxx):
     root = compz.bucket(e, BUCKETS) or compz.keyword_root_cause(err, wit_text, compz.C_KEYWORDS) or compz.bucket(first3, BUCKETS)
     if not root and job["source"] == "random" and compz.confirmed_temporary_collision(err, wit_text):
         root = "generator-temporary-collision"
+    if job["name"] == "type-order" and root == "undeclared-name":
+        # this world only has IMPORTED resources, which are ordered correctly on the pinned tree: not the
+        # listed exported-resource finding
+        root = "type-used-before-declaration"
     sig = compz.signature(job, "cpp:syntax:", root, named=True) if root else compz.signature(job, "cpp:syntax:", compz.normalise(e))
     return {"status": "violation" if sig else "unclassified", "stage": "g++", "sig": sig, "what": "g++ rejects the generated C++: " + e, "detail": err[:2000]}
 
